@@ -63,7 +63,7 @@ fn gen_sig(rng: &mut Rng, lang: Lang, h: &mut Hist) -> Vec<P> {
         else if k < 74 { if have_o && !rng.chance(1, 20) { P::Int { c: 'S', imm: false, arg0: false, hex: false } } else { have_o = true; P::Off } }
         else if k < 77 { if (have_t || !have_o) && !rng.chance(1, 20) { P::Int { c: 'S', imm: false, arg0: false, hex: false } } else { have_t = true; P::Time } }
         else {
-            let mask = if rng.chance(1, 2) { [0, 0, 0] } else { [rng.below(256) as u8, rng.below(256) as u8, rng.below(256) as u8] };
+            let mask = gen_mask(rng, h);
             let kind = rng.below(10);
             let bs_choices = [1u32, 2, 4, 4, 4, 8, 16, 3, 4, 4, 2, 1, 16, 4, 8, 4, 4, 0];
             let sz = if kind < 4 && (last || rng.chance(1, 15)) { SSize::Block(*rng.pick(&bs_choices)) }
@@ -147,7 +147,7 @@ fn codec(rng: &mut Rng, n: usize) {
         // consecutive strings sharing the furigana state (TH12+ MSG quirk)
         if i % 7 == 0 {
             let l2 = if r.chance(1, 2) { Lang::Msg } else { Lang::Anm };
-            let mask = [r.below(256) as u8, r.below(256) as u8, r.below(256) as u8];
+            let mask = gen_mask(&mut r, &mut h);
             let bs = *r.pick(&[1u32, 4, 4, 16]);
             let text_sig = vec![P::Str { ch: 'm', sz: if r.chance(1, 5) { SSize::Fixed(32, r.chance(1, 2)) } else { SSize::Block(bs) }, mask, furibug: true }];
             let plain_sig = vec![P::Int { c: 'S', imm: false, arg0: false, hex: false }, P::Str { ch: 'm', sz: SSize::Block(bs), mask, furibug: r.chance(1, 2) }];
